@@ -41,7 +41,7 @@ def all_subclasses(c):
 
 def import_universe():
     import glue.core.subset, glue.core.roi, glue.core.link_helpers, glue.core.coordinates, glue.core.component_link, glue.core.roi_pretransforms  # noqa
-    import glue.core.subset_group, glue.core.data_derived  # noqa
+    import glue.core.subset_group, glue.core.data_derived, glue.core.parse  # noqa
     import glue.viewers.image.pixel_selection_subset_state  # noqa
     try:
         import glue.plugins.coordinate_helpers.link_helpers  # noqa
@@ -217,6 +217,7 @@ def selection_builders(h):
     m[1, 1:3] = True
     out = {
         'SubsetState': [('empty', lambda: S.SubsetState())],
+        'ParsedSubsetState': [('expression', lambda: __import__('glue.core.parse', fromlist=['x']).ParsedSubsetState(__import__('glue.core.parse', fromlist=['x']).ParsedCommand('({x} > 1.2) & ({y} < 6)', {'x': x, 'y': y})))],
         'RoiSubsetState': [(k, (lambda k=k: S.RoiSubsetState(x, y, rb[k]()))) for k in rb if not k.startswith(('CategoricalROI', 'Projected3dROI'))] +
                           [('pixel-attributes', lambda: S.RoiSubsetState(img.pixel_component_ids[1], img.pixel_component_ids[0], G.RectangularROI(0.5, 2.5, -0.5, 1.5))),
                            ('pretransform:radian', lambda: S.RoiSubsetState(x, y, G.RectangularROI(-0.1, 0.1, 0.0, 0.12), pretransform=RP.RadianTransform(coords=['x', 'y'], next_transform=None))),
@@ -392,6 +393,13 @@ def link_builders(h):
     out['LinkAligned'] = [('two-images', lambda: LH.LinkAligned(img, img_b))]
     out['JoinLink'] = [('join', lambda: LH.JoinLink(cids1=[t.id['y']], cids2=[o.id['c']], data1=t, data2=o))]
     out['LinkCollection'] = [('plain', lambda: LH.LinkCollection([ComponentLink([t.id['x']], o.id['a'])]))]
+
+    def parsed_link():
+        from glue.core.parse import ParsedCommand, ParsedComponentLink
+        from glue.core.component_id import ComponentID
+        t.add_component_link(ParsedComponentLink(ComponentID('parsed'), ParsedCommand('{x} * 2 + {z}', {'x': t.id['x'], 'z': t.id['z']})))
+        return '__already-added__'
+    out['ParsedComponentLink'] = [('derived-attribute', parsed_link)]
     out['BaseMultiLink'] = []
     try:
         from glue.plugins.wcs_autolinking import wcs_autolinking as WA
@@ -480,7 +488,7 @@ def run_links(tier, seed, R, covered=None):
                 continue
             if link is None:
                 continue
-            for l in (link if isinstance(link, list) else [link]):
+            for l in ([] if link == '__already-added__' else link if isinstance(link, list) else [link]):
                 dc.add_link(l)
             # selections that need the link to be evaluated on the other side
             o = lb['__extra_data__'][0]
@@ -515,7 +523,7 @@ def replay_link(name, variant):
     for d in lb['__extra_data__']:
         dc.append(d)
     link = dict(lb[name])[variant]()
-    for l in (link if isinstance(link, list) else [link]):
+    for l in ([] if link == '__already-added__' else link if isinstance(link, list) else [link]):
         dc.add_link(l)
     o = lb['__extra_data__'][0]
     dc.new_subset_group('through-link', h['t'].id['x'] > 1)
